@@ -8,7 +8,22 @@ def withoutProof : J → J
   | .obj kvs => .obj (kvs.filter (·.1 != "proof"))
   | x => x
 
+/-- JWT forms (harness/cmd/corr/c07jwt.go): the token is the signed TEXT; any other text is another token. An unsecured JWT
+    around a presentation with a linked data proof is verified by that proof: what comes back as verified (holder, id) is
+    what the proof covers. -/
+def judgeJWT (impl : String) : String × String × String :=
+  let words := impl.splitOn " "
+  let get (k : String) : String := ((words.find? (·.startsWith (k ++ "="))).map fun w => (w.drop (k.length + 1)).toString).getD "?"
+  if get "sign" != "ok" then ("model: sign=ok (" ++ impl ++ ")", "=", "")
+  else if get "base" != "acc" then ("model: base=acc", "SIGNED-TOKEN-DOES-NOT-VERIFY", "")
+  else if get "applied" == "0" then
+    (if get "res" == "acc" then ("=", "=", "") else ("model: res=acc", "SIGNED-TOKEN-DOES-NOT-VERIFY", ""))
+  else if get "res" != "acc" then ("=", "=", "")
+  else if get "holder" == "same" && get "id" == "same" then ("model: res=rej", "=", "")
+  else ("model: res=rej", "ALTERED-TOKEN-ACCEPTED", "")
+
 def judge (input impl : String) : String × String × String :=
+  if input.startsWith "jwt|" then judgeJWT impl else
   match impl.splitOn "|" with
   | [head, origS, mutS] =>
     let words := head.splitOn " "
